@@ -183,3 +183,98 @@ Theorem time_bare_hhmmss_refuted :
   py_parse_iso [48; 49; 50; 51; 52; 53] = Ok (mkp 3 0 0 0 12 34 5 0 None).
 Proof. exact time_bare_witness. Qed.
 Print Assumptions time_bare_hhmmss_refuted.
+
+(* ------------------------------------------------------------ pure-Python backend, end to end, for EVERY value (shape invariance) *)
+From PV Require Import Gen.IsoRegex Proofs.RegexShape Proofs.C07PyRound.
+
+(* generic matcher facts (Proofs/RegexShape.v; any regex, any input): the groups returned by re.match are the substrings of the input
+   at the spans found by the span-tracking twin of the matcher ... *)
+Theorem regex_groups_are_spans : forall r n s, re_match r n s = option_map (texts s) (re_match_sp r n s).
+Proof. exact re_match_text_of_spans. Qed.
+Print Assumptions regex_groups_are_spans.
+
+(* ... SHAPE INVARIANCE: inputs whose characters are pairwise indistinguishable by every character test occurring in r
+   (literal, set membership, the newline test of $) are matched with the SAME spans (or both rejected) ... *)
+Theorem regex_shape_invariance : forall r n s s', Forall2 (sim r) s s' -> re_match_sp r n s = re_match_sp r n s'.
+Proof. exact re_match_sp_shape. Qed.
+Print Assumptions regex_shape_invariance.
+
+(* ... hence one run on a representative s0 gives the groups of every s of the same shape *)
+Theorem regex_match_by_representative : forall r n s0 s, Forall2 (sim r) s0 s ->
+  re_match r n s = option_map (texts s) (re_match_sp r n s0).
+Proof. exact re_match_shape. Qed.
+Print Assumptions regex_match_by_representative.
+
+(* the GENERATED ISO8601_DT cannot tell one decimal digit from another: for EVERY string, the match and its spans are those of the
+   string with each digit replaced by '0' *)
+Theorem iso_regex_digit_blind : forall s,
+  re_match ISO_RE ISO_NGROUPS s = option_map (texts s) (re_match_sp ISO_RE ISO_NGROUPS (shape s)).
+Proof. exact iso_match_digit_blind. Qed.
+Print Assumptions iso_regex_digit_blind.
+
+(* every rendering YYYY-MM-DD(T| )HH:MM:SS[.ffffff](+|-)HH:MM matches, and the named groups are exactly the rendered fields *)
+Theorem py_groups_of_rendered : forall sep y m d H M S us off,
+  sep = 84 \/ sep = 32 -> 0 <= y <= 9999 -> 0 <= m < 100 -> 0 <= d < 100 -> 0 <= H < 100 -> 0 <= M < 100 -> 0 <= S < 100 ->
+  0 <= us < 1000000 -> -86400 < off < 86400 ->
+  re_match ISO_RE ISO_NGROUPS (render_datetime_ext sep y m d H M S us off) =
+  Some [None; Some (render_date 0 y m d); Some (render_date 0 y m d); Some (render4 y);
+        Some ([45] ++ render2 m ++ [45] ++ render2 d); Some [45]; Some (render2 m); Some ([45] ++ render2 d); Some [45]; Some (render2 d);
+        None; None; None; None; None; None;
+        Some ([sep] ++ render_time_ext H M S us ++ render_offset off); Some [sep]; Some (render2 H); Some [58]; Some (render2 M); Some [58];
+        Some (render2 S); (if us =? 0 then None else Some (46 :: render6 us)); (if us =? 0 then None else Some (render6 us));
+        Some (render_offset off)].
+Proof. exact py_groups_of_rendering. Qed.
+Print Assumptions py_groups_of_rendered.
+
+(* the statement of parse_render_extended_rs for the pure-Python parser (regex + post-match code), same hypotheses: every valid
+   date-time (years 1..9999), fraction absent or six digits, every whole-minute offset in -23:59..+23:59, separator T or space.
+   This supersedes the note above parse_render_extended_py_partial (kept as two worked instances). *)
+Theorem parse_render_extended_py : forall sep y m d H M S us off,
+  sep = 84 \/ sep = 32 -> valid_date y m d = true -> valid_time H M S us = true -> -86400 < off < 86400 -> off mod 60 = 0 ->
+  py_parse_iso (render_datetime_ext sep y m d H M S us off) = Ok (mkp 1 y m d H M S us (Some off)).
+Proof. exact py_parse_iso_render. Qed.
+Print Assumptions parse_render_extended_py.
+
+(* ... and through pendulum.parse with any exact / tz / now options *)
+Theorem parse_inverts_isoformat_py : forall exact tzopt now sep y m d H M S us off,
+  sep = 84 \/ sep = 32 -> valid_date y m d = true -> valid_time H M S us = true -> -86400 < off < 86400 -> off mod 60 = 0 ->
+  parse_top false exact tzopt now (render_datetime_ext sep y m d H M S us off) = Ok (mkp 1 y m d H M S us (Some off)).
+Proof. exact py_parse_top_render. Qed.
+Print Assumptions parse_inverts_isoformat_py.
+
+(* the two backends agree on every rendered string, natively and through pendulum.parse *)
+Theorem rs_eq_py_on_rendered : forall sep y m d H M S us off,
+  sep = 84 \/ sep = 32 -> valid_date y m d = true -> valid_time H M S us = true -> -86400 < off < 86400 -> off mod 60 = 0 ->
+  rs_parse_iso (render_datetime_ext sep y m d H M S us off) = py_parse_iso (render_datetime_ext sep y m d H M S us off) /\
+  forall exact tzopt now, parse_top true exact tzopt now (render_datetime_ext sep y m d H M S us off) =
+                          parse_top false exact tzopt now (render_datetime_ext sep y m d H M S us off).
+Proof. exact rs_eq_py_on_rendered_ext. Qed.
+Print Assumptions rs_eq_py_on_rendered.
+
+(* date-only texts, pure-Python backend: calendar extended (0), calendar basic (1), ordinal extended (2), ordinal basic (3),
+   every valid date of the years 1..9999 (the ordinal forms go through the translated ordinal loop, ordinal_py_spec) *)
+Theorem parse_render_date_forms_py : forall form y m d, 0 <= form <= 3 -> valid_date y m d = true ->
+  py_parse_iso (render_date form y m d) = Ok (mkp 2 y m d 0 0 0 0 None).
+Proof. exact py_parse_iso_render_date. Qed.
+Print Assumptions parse_render_date_forms_py.
+
+(* reference calendar, every year: date.fromisocalendar inverts date.isocalendar, and the ISO triple is in range *)
+Theorem cal_isocalendar_inverse : forall y m d, valid_dateb y m d = true ->
+  let '(iy, iw, iwd) := isocalendar y m d in
+  y - 1 <= iy <= y + 1 /\ 1 <= iw <= iso_weeks_in_year iy /\ 1 <= iwd <= 7 /\ fromisocalendar_ord iy iw iwd = ymd2ord y m d.
+Proof. exact isocalendar_inverse. Qed.
+Print Assumptions cal_isocalendar_inverse.
+
+(* week dates rendered from the ISO calendar triple of a date, extended (4) YYYY-Www-D and basic (5) YYYYWwwD, pure-Python backend:
+   every valid date whose ISO year is in 1001..9998 (the range of week_py_spec: strptime's four-digit %Y) *)
+Theorem parse_render_week_forms_py : forall form y m d, 4 <= form <= 5 -> valid_date y m d = true ->
+  1001 <= fst (fst (isocalendar y m d)) <= 9998 ->
+  py_parse_iso (render_date form y m d) = Ok (mkp 2 y m d 0 0 0 0 None).
+Proof. exact py_parse_iso_render_week. Qed.
+Print Assumptions parse_render_week_forms_py.
+
+(* in particular every date of the years 1002..9997, which contains the property's 1583.. range up to 9997 *)
+Theorem parse_render_week_forms_py_years : forall form y m d, 4 <= form <= 5 -> valid_date y m d = true -> 1002 <= y <= 9997 ->
+  py_parse_iso (render_date form y m d) = Ok (mkp 2 y m d 0 0 0 0 None).
+Proof. exact py_parse_iso_render_week_years. Qed.
+Print Assumptions parse_render_week_forms_py_years.
